@@ -2903,8 +2903,15 @@ impl Translator {
             }
             ExprKind::FuncCall(func, args) => {
                 self.collect_locals_expr(func, locals, mono);
-                for arg in args {
-                    self.collect_locals_expr(&arg.val, locals, mono);
+                // the arguments that are compiled include default values spliced in by the checker
+                if let Some(reordered_args) = self.statics.function_call_arg_order.get(&expr.id) {
+                    for arg_val in reordered_args {
+                        self.collect_locals_expr(arg_val, locals, mono);
+                    }
+                } else {
+                    for arg in args {
+                        self.collect_locals_expr(&arg.val, locals, mono);
+                    }
                 }
             }
 
@@ -3134,8 +3141,14 @@ impl Translator {
             }
             ExprKind::FuncCall(func, args) => {
                 self.collect_captures_expr(func, captures, mono);
-                for arg in args {
-                    self.collect_captures_expr(&arg.val, captures, mono);
+                if let Some(reordered_args) = self.statics.function_call_arg_order.get(&expr.id) {
+                    for arg_val in reordered_args {
+                        self.collect_captures_expr(arg_val, captures, mono);
+                    }
+                } else {
+                    for arg in args {
+                        self.collect_captures_expr(&arg.val, captures, mono);
+                    }
                 }
             }
             // a nested lambda or task needs the outer variables it uses to be present in this frame
